@@ -317,6 +317,30 @@ func genC14(g *Gen, tier string) *Program {
 	case 1:
 		p.Cfg.Faults.CloseDest = g.Range(1, 3)
 	}
+	if g.Bool(12) {
+		// producers that never pause: they report until a Close call has returned.
+		// The run is cut over to fair scheduling early; if Close is still starved
+		// then, the run ends as a livelock.
+		p.Prelude = append(p.Prelude, Op{K: "m3ac", M: 900, Name: "spam_c", Tags: map[string]string{"a": "1"}})
+		for i := g.Range(2, 3); i > 0; i-- {
+			var ops []Op
+			for k := g.Intn(3); k > 0; k-- {
+				ops = append(ops, Op{K: "yield"})
+			}
+			p.Tasks = append(p.Tasks, append(ops, Op{K: "m3spam", M: 900}))
+		}
+		hasCloser := false
+		for _, t := range p.Tasks {
+			for _, op := range t {
+				hasCloser = hasCloser || op.K == "m3close"
+			}
+		}
+		if !hasCloser {
+			p.Tasks = append(p.Tasks, []Op{{K: "yield"}, {K: "m3close"}})
+		}
+		p.Cfg.MaxSteps = 12000 // fair scheduling from here on; a batch emission alone is thousands of steps
+		p.Cfg.Flags = map[string]int{"spam": 1}
+	}
 	return p
 }
 
@@ -506,7 +530,7 @@ func (a *m3Analysis) match(env *Env) {
 			env.Probes.inc("multi_metric_batches")
 		}
 		for mi, m := range b.metrics {
-			if isInternalName(m.name) {
+			if isInternalName(m.name) || strings.HasPrefix(m.name, "spam_") {
 				continue
 			}
 			a.wireCount++
